@@ -87,7 +87,7 @@ class Builder:
         self.holes.append((h, k))
         t = self.tag()
         op = "*=" if kind == "star" else "@="
-        return [("line", f"{op} {h}"), ("mark", t, ("seg", h, k))]
+        return [("line", f"{op} {h}"), ("mark", t, ("seg", h, k, "star" if kind == "star" else "at"))]
 
     def item(self, kind):
         if kind in MOVES:
@@ -115,7 +115,7 @@ def program(spec):
     """Returns (builder, structured statements)."""
     b = Builder()
     t0 = b.tag()
-    stmts = [("line", "*= p0"), ("mark", t0, ("seg", "p0", "rom")), ("line", "c0 := V0"), ("line", ".table 't.tbl'")]
+    stmts = [("line", "*= p0"), ("mark", t0, ("seg", "p0", "rom", "star")), ("line", "c0 := V0"), ("line", ".table 't.tbl'")]
     stmts += b.label("back")
     kind = spec["kind"]
     if kind == "seq":
@@ -379,12 +379,15 @@ def check(spec, cx, out):
     expected = marker_sequence(stmts)
     if len(found) != len(expected):
         return [("one-marker-per-label-and-move", z3.BoolVal(False))]
-    res, conds, label_terms = [], [], []
+    res, conds, label_terms, placed = [], [], [], []
     seg = None
     pre = []
     for (bi, spos, nxt), (info, in_loop) in zip(found, expected):
         if info[0] == "seg":
             seg = (cx.t(info[1]), spos, info[2])
+            if info[3] == "star":
+                # the byte after `*= q` is placed at the file offset the mapping gives to q
+                placed.append(spos == L.offset(g, cx.t(info[1])))
             continue
         run0, s0, kind = seg
         delta = spos - s0
@@ -401,6 +404,7 @@ def check(spec, cx, out):
         if not in_loop:
             label_terms.append((info[1], want))
     ok_pre = z3.And(*pre) if pre else z3.BoolVal(True)
+    res.append(("byte-after-star-eq-placed-at-mapped-offset", z3.And(*placed) if placed else z3.BoolVal(True)))
     res.append(("label-equals-address-of-next-emitted-byte", z3.Implies(ok_pre, z3.And(*conds) if conds else z3.BoolVal(True))))
     # Resolver.get_all_labels(): every reported label matches a marker of that name
     lc = []
